@@ -81,15 +81,6 @@ Qed.
 (* ------------------------------------------------------------------------------------------ *)
 (* what serve_file can serve                                                                   *)
 
-(* the names serve_file may have opened for the body: the request path or one of its index pages,
-   or such a name extended by the extension of an accepted encoding *)
-Definition served_from (pages : list bytes) (req ae : bytes) (enc : option bytes) (p : bytes) : Prop :=
-  exists base, (base = req \/ exists pg, In pg pages /\ base = path_join2 req pg) /\
-    match enc with
-    | None => p = jail base
-    | Some e => exists ext, In (e, ext) gen_static_encodings /\ accepts ae e = true /\ p = jail (base ++ ext)
-    end.
-
 Lemma serve_file_serve fs hide pages prefix m req ae n enc :
   serve_file fs hide pages prefix m req ae = Serve n enc ->
   is_get_head m = true /\ In n fs /\ served_from pages req ae enc (n_path n) /\
@@ -689,6 +680,66 @@ Proof.
   intros H k Hk.
   destruct (archive_sound _ _ _ _ _ _ _ _ _ H k Hk) as [Hin Hd].
   split; [exact Hin|]. split; [exact Hd|]. apply is_desc_prefix. exact Hd.
+Qed.
+
+(* ---- the whole site: internal -> browse -> static ---- *)
+Lemma serve_file_not_listing fs hide pages prefix m req ae ks :
+  serve_file fs hide pages prefix m req ae <> Listing ks.
+Proof.
+  unfold serve_file.
+  repeat match goal with
+         | |- context [if ?b then _ else _] => destruct b; try discriminate
+         | |- context [match ?x with _ => _ end] => destruct x; try discriminate
+         end.
+Qed.
+
+Lemma handle_cases (s : site) (r : request) :
+  handle s r = Status 404 \/
+  handle s r = browse (s_fs s) (s_hide s) (s_pages s) (s_browse s) (q_meth r) (q_path r) (q_ae r) (q_archive r).
+Proof. unfold handle. destruct (internal_blocks (s_internal s) (q_path r)); auto. Qed.
+
+Lemma browse_serve fs hide pages confs m req ae archive n enc :
+  browse fs hide pages confs m req ae archive = Serve n enc ->
+  serve_file fs hide pages [SLASH] m req ae = Serve n enc.
+Proof.
+  intros H.
+  pose proof (browse_cases fs hide pages confs m req ae archive) as C. cbv zeta in C. rewrite H in C.
+  destruct C as [C|[C|[C|[C|[C|C]]]]]; try discriminate.
+  - symmetry. exact C.
+  - destruct C as (u & C & _). discriminate.
+  - destruct C as [C _]. discriminate.
+  - destruct C as [C _]. discriminate.
+Qed.
+
+(* every answer of a site that carries file content, and every redirect *)
+Lemma site_sound (s : site) (r : request) :
+  match handle s r with
+  | Serve n enc =>
+      is_get_head (q_meth r) = true /\ In n (s_fs s) /\
+      served_from (s_pages s) (q_path r) (q_ae r) enc (n_path n) /\
+      (enc = None -> n_dir n = false /\ is_hidden (s_fs s) (s_hide s) n = false) /\
+      (no_hidden_sibling (s_fs s) (s_hide s) -> is_hidden (s_fs s) (s_hide s) n = false)
+  | Listing kids =>
+      forall k, In k kids -> In k (s_fs s) /\ is_child (jail (q_path r)) (n_path k) = true /\
+                             is_hidden (s_fs s) (s_hide s) k = false
+  | Archive ms =>
+      forall k, In k ms -> In k (s_fs s) /\ is_desc (jail (q_path r)) (n_path k) = true /\
+                           has_prefix (n_path k) (jail (q_path r)) = true
+  | Redirect code loc =>
+      rooted (q_path r) -> has_prefix (q_path r) [SLASH; SLASH] = false ->
+      one_slash loc = true /\ same_origin loc = true
+  | Status _ => True
+  end.
+Proof.
+  destruct (handle_cases s r) as [E|E]; [rewrite E; exact I|].
+  destruct (handle s r) as [c|c loc|n enc|kids|ms] eqn:H; [exact I| | | |]; symmetry in E.
+  - intros Hr Hp. eapply browse_redirect; eassumption.
+  - apply browse_serve in E.
+    destruct (serve_file_serve _ _ _ _ _ _ _ _ _ E) as (Hm & Hin & Hs & Hn).
+    repeat split; auto; try (apply Hn; assumption).
+    intros Hno. eapply static_never_hidden_partial; eassumption.
+  - intros k Hk. eapply listing_sound; eassumption.
+  - intros k Hk. eapply archive_inside_root; eassumption.
 Qed.
 
 (* refutation witnesses (the fixture tree the harness serves) *)
